@@ -157,7 +157,7 @@ def check(prop, tier, verbose=False):
         pm = None
     jobs_canary = []
     for cid in cids:
-        cs = [k for k in REGISTRY[cid].canaries if prop in (k[2] if len(k) > 2 else REGISTRY[cid].props)]
+        cs = [k for k in REGISTRY[cid].canaries if prop in ((k[2] if len(k) > 2 else None) or REGISTRY[cid].props)]
         if tier == "quick":
             cs = cs[:2]
         jobs_canary += [(cid, k[0], k[1], k[3] if len(k) > 3 else None) for k in cs]
@@ -208,7 +208,7 @@ def merge_shards(parts):
 
 def report(prop, tier, seed, units, canaries, bounded, berr, pm, t_start, verbose):
     from .contracts import REGISTRY
-    findings = [f for f in load_findings() if f.get("property") == prop]
+    findings = [f for f in load_findings() if f.get("property") == prop or prop in f.get("properties", [])]
     known = [f for f in findings if f.get("status", "known") == "known"]
     crashed = [u for u in units if not u["ok"]]
     recs = [r for u in units if u["ok"] for r in u["records"] if prop in r["props"]]
@@ -314,7 +314,7 @@ def match_bounded_finding(v, known):
             if pred is None:
                 return f
             try:
-                if eval(pred, {"__builtins__": __builtins__}, {"v": v, **v.get("input", {})}):
+                if eval(pred, {"__builtins__": __builtins__, "v": v, **v.get("input", {})}):
                     return f
             except Exception:
                 continue
